@@ -304,6 +304,10 @@ impl<'a, C, T: EncodeBytes<C> + ?Sized> EncodeBytes<C> for &'a T {
     fn encode_bytes<W: Write>(&self, e: &mut Encoder<W>, ctx: &mut C) -> Result<(), encode::Error<W::Error>> {
         (**self).encode_bytes(e, ctx)
     }
+
+    fn is_nil(&self) -> bool {
+        (**self).is_nil()
+    }
 }
 
 #[cfg(feature = "derive")]
